@@ -1,1 +1,315 @@
-fn main(){}
+//! In-process driver of the bindgen library built from /repo (hooks on).
+//!
+//! usage: vf-driver <spec.json>      -> one JSON document on stdout
+//!
+//! spec: { "mode": "jobs" | "threads",
+//!         "jobs": [ job, ... ],            job = { "flags": [..] } | { "methods": [[name, arg..], ..] }
+//!                                           + optional "callbacks": "record" | "cargo" | "rename:<how>",
+//!                                             "out": path, "write": "string" | "write" | "file",
+//!                                             "emit_flags": bool, "catch": bool
+//!         "order": [job index, ...],       (mode jobs: the history to execute, default 0..n)
+//!         "threads": N, "rounds": R }      (mode threads: N threads, each runs `order` R times behind a barrier)
+use std::collections::hash_map::DefaultHasher;
+use std::hash::{Hash, Hasher};
+use std::sync::{Arc, Barrier, Mutex};
+
+use bindgen::callbacks::{
+    DeriveInfo, EnumVariantValue, FieldInfo, ImplementsTrait, IntKind, ItemInfo, ParseCallbacks,
+};
+use serde_json::{json, Value};
+
+mod methods_gen;
+
+pub fn codegen_config(s: &str) -> Option<bindgen::CodegenConfig> {
+    let mut c = bindgen::CodegenConfig::empty();
+    for part in s.split(',').filter(|p| !p.is_empty()) {
+        c |= match part {
+            "functions" => bindgen::CodegenConfig::FUNCTIONS,
+            "types" => bindgen::CodegenConfig::TYPES,
+            "vars" => bindgen::CodegenConfig::VARS,
+            "methods" => bindgen::CodegenConfig::METHODS,
+            "constructors" => bindgen::CodegenConfig::CONSTRUCTORS,
+            "destructors" => bindgen::CodegenConfig::DESTRUCTORS,
+            _ => return None,
+        };
+    }
+    Some(c)
+}
+
+fn h64(s: &[u8]) -> String {
+    let mut h = DefaultHasher::new();
+    s.hash(&mut h);
+    format!("{:016x}-{}", h.finish(), s.len())
+}
+
+#[derive(Debug)]
+struct Recorder {
+    log: Arc<Mutex<Vec<String>>>,
+    rename: Option<String>,
+    vouch: Vec<String>,
+}
+
+impl Recorder {
+    fn push(&self, s: String) {
+        self.log.lock().unwrap().push(s);
+    }
+}
+
+impl ParseCallbacks for Recorder {
+    fn header_file(&self, filename: &str) {
+        self.push(format!("header_file {filename}"));
+    }
+    fn include_file(&self, filename: &str) {
+        self.push(format!("include_file {filename}"));
+    }
+    fn read_env_var(&self, key: &str) {
+        self.push(format!("read_env_var {key}"));
+    }
+    fn int_macro(&self, name: &str, value: i64) -> Option<IntKind> {
+        self.push(format!("int_macro {name} {value}"));
+        None
+    }
+    fn str_macro(&self, name: &str, value: &[u8]) {
+        self.push(format!("str_macro {name} {}", String::from_utf8_lossy(value)));
+    }
+    fn item_name(&self, info: ItemInfo) -> Option<String> {
+        self.push(format!("item_name {}", info.name));
+        match self.rename.as_deref() {
+            Some("suffix") => Some(format!("{}_vf", info.name)),
+            Some("prefix") => Some(format!("vf_{}", info.name)),
+            Some("keyword") if info.name.ends_with('0') => Some("match".to_string()),
+            _ => None,
+        }
+    }
+    fn field_name(&self, info: FieldInfo<'_>) -> Option<String> {
+        self.push(format!("field_name {} {}", info.type_name, info.field_name));
+        match self.rename.as_deref() {
+            Some("suffix") => Some(format!("{}_vf", info.field_name)),
+            Some("keyword") if info.field_name.ends_with('1') => Some("type".to_string()),
+            _ => None,
+        }
+    }
+    fn enum_variant_name(
+        &self,
+        enum_name: Option<&str>,
+        variant: &str,
+        _value: EnumVariantValue,
+    ) -> Option<String> {
+        self.push(format!("enum_variant_name {} {variant}", enum_name.unwrap_or("-")));
+        match self.rename.as_deref() {
+            Some("suffix") => Some(format!("{variant}_vf")),
+            _ => None,
+        }
+    }
+    fn blocklisted_type_implements_trait(
+        &self,
+        name: &str,
+        derive_trait: bindgen::callbacks::DeriveTrait,
+    ) -> Option<ImplementsTrait> {
+        self.push(format!("blocklisted_type_implements_trait {name} {derive_trait:?}"));
+        if self.vouch.iter().any(|v| name.ends_with(v.as_str())) {
+            Some(ImplementsTrait::Yes)
+        } else {
+            None
+        }
+    }
+    fn add_derives(&self, info: &DeriveInfo<'_>) -> Vec<String> {
+        self.push(format!("add_derives {}", info.name));
+        vec![]
+    }
+}
+
+fn build(job: &Value, log: &Arc<Mutex<Vec<String>>>) -> Result<bindgen::Builder, String> {
+    let mut b = if let Some(flags) = job.get("flags").and_then(|f| f.as_array()) {
+        let mut args = vec!["bindgen".to_string()];
+        args.extend(flags.iter().map(|f| f.as_str().unwrap_or("").to_string()));
+        match bindgen::builder_from_flags(args.into_iter()) {
+            Ok((b, _out, _verbose)) => b,
+            Err(e) => return Err(format!("builder_from_flags: {e}")),
+        }
+    } else {
+        let mut b = bindgen::builder();
+        if let Some(ms) = job.get("methods").and_then(|m| m.as_array()) {
+            for m in ms {
+                let parts: Vec<String> = m
+                    .as_array()
+                    .map(|a| a.iter().map(|x| x.as_str().unwrap_or("").to_string()).collect())
+                    .unwrap_or_default();
+                if parts.is_empty() {
+                    continue;
+                }
+                b = match methods_gen::apply(b, &parts[0], &parts[1..]) {
+                    Some(b) => b,
+                    None => return Err(format!("unknown method or bad args: {:?}", parts)),
+                };
+            }
+        }
+        b
+    };
+    match job.get("callbacks").and_then(|c| c.as_str()) {
+        Some("cargo") => b = b.parse_callbacks(Box::new(bindgen::CargoCallbacks::new())),
+        Some(c) if c.starts_with("record") || c.starts_with("rename:") => {
+            let rename = c.strip_prefix("rename:").map(|s| s.to_string());
+            let vouch = job
+                .get("vouch")
+                .and_then(|v| v.as_array())
+                .map(|a| a.iter().filter_map(|x| x.as_str().map(|s| s.to_string())).collect())
+                .unwrap_or_default();
+            b = b.parse_callbacks(Box::new(Recorder { log: log.clone(), rename, vouch }));
+        }
+        _ => {}
+    }
+    Ok(b)
+}
+
+fn err_kind(e: &bindgen::BindgenError) -> &'static str {
+    match e {
+        bindgen::BindgenError::FolderAsHeader(_) => "FolderAsHeader",
+        bindgen::BindgenError::InsufficientPermissions(_) => "InsufficientPermissions",
+        bindgen::BindgenError::NotExist(_) => "NotExist",
+        bindgen::BindgenError::ClangDiagnostic(_) => "ClangDiagnostic",
+        bindgen::BindgenError::Codegen(_) => "Codegen",
+        bindgen::BindgenError::UnsupportedEdition(_, _) => "UnsupportedEdition",
+        _ => "Other",
+    }
+}
+
+fn run_job(job: &Value) -> Value {
+    let log = Arc::new(Mutex::new(Vec::new()));
+    let b = match build(job, &log) {
+        Ok(b) => b,
+        Err(e) => return json!({"ok": false, "stage": "build", "err": e}),
+    };
+    let flags = if job.get("emit_flags").and_then(|v| v.as_bool()).unwrap_or(false) {
+        Some(b.command_line_flags())
+    } else {
+        None
+    };
+    let gen = std::panic::catch_unwind(std::panic::AssertUnwindSafe(|| b.generate()));
+    let mut res = json!({"flags_out": flags});
+    match gen {
+        Err(p) => {
+            let msg = p
+                .downcast_ref::<String>()
+                .cloned()
+                .or_else(|| p.downcast_ref::<&str>().map(|s| s.to_string()))
+                .unwrap_or_default();
+            res["ok"] = json!(false);
+            res["stage"] = json!("panic");
+            res["err"] = json!(msg);
+        }
+        Ok(Err(e)) => {
+            res["ok"] = json!(false);
+            res["stage"] = json!("generate");
+            res["err_kind"] = json!(err_kind(&e));
+            res["err"] = json!(e.to_string());
+        }
+        Ok(Ok(bindings)) => {
+            let how = job.get("write").and_then(|v| v.as_str()).unwrap_or("string");
+            let text: Result<Vec<u8>, String> = match how {
+                "write" => {
+                    let mut buf = Vec::new();
+                    bindings.write(Box::new(&mut buf)).map(|_| buf).map_err(|e| e.to_string())
+                }
+                "file" => {
+                    let p = job.get("out").and_then(|v| v.as_str()).unwrap_or("/dev/null");
+                    bindings
+                        .write_to_file(p)
+                        .map_err(|e| e.to_string())
+                        .and_then(|_| std::fs::read(p).map_err(|e| e.to_string()))
+                }
+                _ => Ok(bindings.to_string().into_bytes()),
+            };
+            match text {
+                Ok(t) => {
+                    res["ok"] = json!(true);
+                    res["hash"] = json!(h64(&t));
+                    if how != "file" {
+                        if let Some(p) = job.get("out").and_then(|v| v.as_str()) {
+                            let _ = std::fs::write(p, &t);
+                        }
+                    }
+                }
+                Err(e) => {
+                    res["ok"] = json!(false);
+                    res["stage"] = json!("write");
+                    res["err"] = json!(e);
+                }
+            }
+        }
+    }
+    let l = log.lock().unwrap();
+    res["callbacks_hash"] = json!(h64(l.join("\n").as_bytes()));
+    res["callbacks_n"] = json!(l.len());
+    if job.get("callbacks_full").and_then(|v| v.as_bool()).unwrap_or(false) {
+        res["callbacks"] = json!(l.clone());
+    }
+    res
+}
+
+fn main() {
+    let path = std::env::args().nth(1).expect("spec path");
+    if path == "--methods" {
+        let m: Vec<Value> = methods_gen::METHODS.iter().map(|(n, k)| json!([n, k])).collect();
+        println!("{}", json!({"methods": m, "holes": methods_gen::HOLES}));
+        return;
+    }
+    let spec: Value = serde_json::from_str(&std::fs::read_to_string(&path).expect("read spec")).expect("spec json");
+    std::panic::set_hook(Box::new(|info| {
+        eprintln!("PANIC-HOOK {info}");
+    }));
+    let jobs = spec["jobs"].as_array().cloned().unwrap_or_default();
+    let order: Vec<usize> = spec
+        .get("order")
+        .and_then(|o| o.as_array())
+        .map(|a| a.iter().map(|x| x.as_u64().unwrap_or(0) as usize).collect())
+        .unwrap_or_else(|| (0..jobs.len()).collect());
+    let mode = spec.get("mode").and_then(|m| m.as_str()).unwrap_or("jobs");
+    if mode == "threads" {
+        let n = spec.get("threads").and_then(|t| t.as_u64()).unwrap_or(4) as usize;
+        let rounds = spec.get("rounds").and_then(|t| t.as_u64()).unwrap_or(1) as usize;
+        let barrier = Arc::new(Barrier::new(n));
+        let jobs = Arc::new(jobs);
+        let order = Arc::new(order);
+        let mut handles = vec![];
+        for t in 0..n {
+            let barrier = barrier.clone();
+            let jobs = jobs.clone();
+            let order = order.clone();
+            handles.push(std::thread::Builder::new().stack_size(64 << 20).spawn(move || {
+                let mut out = vec![];
+                for r in 0..rounds {
+                    barrier.wait();
+                    for k in 0..order.len() {
+                        // rotate so that different threads work on different headers at the same time
+                        let idx = order[(k + t * (1 + r)) % order.len()];
+                        let mut v = run_job(&jobs[idx]);
+                        v["job"] = json!(idx);
+                        v["thread"] = json!(t);
+                        v["round"] = json!(r);
+                        out.push(v);
+                    }
+                }
+                out
+            }).unwrap());
+        }
+        let mut all = vec![];
+        let mut crashed = 0;
+        for h in handles {
+            match h.join() {
+                Ok(v) => all.extend(v),
+                Err(_) => crashed += 1,
+            }
+        }
+        println!("{}", json!({"results": all, "threads_crashed": crashed}));
+    } else {
+        let mut all = vec![];
+        for (pos, idx) in order.iter().enumerate() {
+            let mut v = run_job(&jobs[*idx]);
+            v["job"] = json!(idx);
+            v["pos"] = json!(pos);
+            all.push(v);
+        }
+        println!("{}", json!({"results": all}));
+    }
+}
